@@ -9,23 +9,7 @@ from vf import core
 FAMS = [1, 2, 3, 4]
 
 
-def gen_case(rng):
-    las = rng.choice([65000, 65000, 70000, 4200000000])
-    mode = rng.random()
-    remote = rng.choice([65001, 65001, las, 70001, 23456])
-    peeras = rng.choice([remote] * 8 + [0, 0, 65009])
-    members = rng.choice([[], [], [remote], [65100, 65101]])
-    lhold = rng.choice([0, 3, 9, 30, 90, 90, 180])
-    lka = rng.choice([lhold // 3, lhold // 3, 1, 30, 0])
-    nf = rng.choice([1, 1, 2, 3])
-    lf = []
-    for f in rng.sample(FAMS, nf):
-        lf.append((f, rng.randrange(2), rng.choice([0, 0, 1, 2]), rng.randrange(2)))
-    if rng.random() < 0.1 and lf:
-        lf.append((lf[0][0], rng.randrange(2), rng.choice([0, 2]), 0))   # duplicate family entry
-    gr = rng.randrange(2)
-    conf = dict(las=las, peeras=peeras, ext=1 if (peeras != las) else 0, hold=lhold, ka=lka, id=16843009, members=members,
-                gr=gr, grnotif=rng.randrange(2), grtime=rng.choice([0, 90, 120, 4095]), fams=lf)
+def gen_open(rng, remote):
     caps = []
     for f in FAMS:
         r = rng.random()
@@ -56,7 +40,31 @@ def gen_case(rng):
         asfield = 23456
     op = dict(ver=4 if rng.random() < 0.95 else rng.choice([3, 5]), asf=asfield,
               hold=rng.choice([0, 3, 9, 30, 30, 90, 90, 180, 65535, 3, 9, 90, 1, 2]), id=rng.choice([33686018] * 12 + [0, 16843009]), caps=caps, remote=remote)
-    return dict(conf=conf, open=op)
+    return op
+
+
+def gen_case(rng):
+    las = rng.choice([65000, 65000, 70000, 4200000000])
+    mode = rng.random()
+    remote = rng.choice([65001, 65001, las, 70001, 23456])
+    peeras = rng.choice([remote] * 8 + [0, 0, 65009])
+    members = rng.choice([[], [], [remote], [65100, 65101]])
+    lhold = rng.choice([0, 3, 9, 30, 90, 90, 180])
+    lka = rng.choice([lhold // 3, lhold // 3, 1, 30, 0])
+    nf = rng.choice([1, 1, 2, 3])
+    lf = []
+    for f in rng.sample(FAMS, nf):
+        lf.append((f, rng.randrange(2), rng.choice([0, 0, 1, 2]), rng.randrange(2)))
+    if rng.random() < 0.1 and lf:
+        lf.append((lf[0][0], rng.randrange(2), rng.choice([0, 2]), 0))   # duplicate family entry
+    gr = rng.randrange(2)
+    conf = dict(las=las, peeras=peeras, ext=1 if (peeras != las) else 0, hold=lhold, ka=lka, id=16843009, members=members,
+                gr=gr, grnotif=rng.randrange(2), grtime=rng.choice([0, 90, 120, 4095]), fams=lf)
+    c = dict(conf=conf, open=gen_open(rng, remote))
+    if rng.random() < 0.45:
+        # the neighbour's fsm has been through an earlier session, opened by another OPEN of the same peer
+        c["prev"] = gen_open(rng, remote)
+    return c
 
 
 def line_of(c):
@@ -65,7 +73,23 @@ def line_of(c):
     conf = "(%d %d %d %d %d %d %d (%s) %d %d %d (%s))" % (k["las"], k["peeras"], k["ext"], k["hold"], k["ka"], k["id"], 1 if k["members"] else 0,
                                                           " ".join(map(str, k["members"])), k["gr"], k["grnotif"], k["grtime"], fams)
     o = c["open"]
-    return "neg %s (%d %d %d %d (%s))" % (conf, o["ver"], o["asf"], o["hold"], o["id"], " ".join(o["caps"]))
+    l = "neg %s (%d %d %d %d (%s))" % (conf, o["ver"], o["asf"], o["hold"], o["id"], " ".join(o["caps"]))
+    if c.get("prev"):
+        o = c["prev"]
+        l += " (%d %d %d %d (%s))" % (o["ver"], o["asf"], o["hold"], o["id"], " ".join(o["caps"]))
+    return l
+
+
+def norm(c, out):
+    """the peer's restart time is meaningful only when graceful restart is in force for this session (with it off, the
+    state field keeps whatever an earlier session left there; nothing reads it)"""
+    import re
+    return re.sub(r" 0 ([01]) \d+\)$", r" 0 \1 -)", out)
+
+
+def model_line(c):
+    """the model negotiates from the configuration and the OPEN of THIS session alone"""
+    return line_of(dict(c, prev=None))
 
 
 def parse_sx(s):
@@ -184,12 +208,12 @@ def run(ctx):
     ctx.say("proof stage: ok=%s theorems=%d audit=%d (%.1fs)" % (proof["ok"], len(proof["theorems"]), len(proof["audit"]), proof.get("wall_s", 0)))
     n = ctx.scale(8000, 200000)
     cases = [gen_case(ctx.rng) for _ in range(n)]
-    cov = core.differential(ctx, "c08", proof, cases, line_of, oracle, nontrivial=lambda c: len(c["open"]["caps"]) >= 3,
+    cov = core.differential(ctx, "c08", proof, cases, line_of, oracle, nontrivial=lambda c: len(c["open"]["caps"]) >= 3, model_line_of=model_line, norm_impl=norm, norm_model=norm,
                             more_cases=lambda: [gen_case(ctx.rng) for _ in range(n * 2)],
                             correspondence_name="fsm.handleOpen/stateChange/open2Cap/buildopen vs Session.Negotiate")
     pc = core.proof_coverage(proof)
     pc.update(cov)
-    dist = {"refused": sum(1 for c in cases if c["open"]["ver"] != 4 or c["open"]["id"] in (0,) or c["open"]["hold"] in (1, 2)), "total": len(cases)}
+    dist = {"with an earlier session on the same fsm": sum(1 for c in cases if c.get("prev")), "refused": sum(1 for c in cases if c["open"]["ver"] != 4 or c["open"]["id"] in (0,) or c["open"]["hold"] in (1, 2)), "total": len(cases)}
     pc.update({
         "input_distribution": dist,
         "rule": "neighbour configurations (local AS 2/4-octet, peer-as incl. 0, families x ADD-PATH modes x GR, timers incl. 0, confederation members) x received OPENs (capability multisets incl. duplicates, unknown codes, absent multiprotocol, several ADD-PATH capabilities, hold 0/1/2/3.., bad version/identifier/AS); non-trivial = at least 3 capabilities; distinct by line",
